@@ -145,4 +145,4 @@ class TableBundle:
     def all(self, name: str) -> List[TableType]:
         """Returns all tables with this name."""
         lst = self._tables_named.get(name)
-        return lst if lst is not None else []
+        return list(lst) if lst is not None else []
